@@ -49,23 +49,24 @@ Definition cvalue (s : snap) (e : edge) (c0 : nat -> nat) (x : bool) : Prop :=
 Lemma cvalue_fun : forall s e c0 x y, cvalue s e c0 x -> cvalue s e c0 y -> x = y.
 Proof. intros s e c0 x y A B. unfold cvalue in *. congruence. Qed.
 
+(** not: the tag flip, whatever the cache *)
+Theorem capply_not_sound : forall C s (c : C) f,
+  BcOK s -> ref_ok s (eref f) ->
+  exists r, capply_not C s c f = Some (s, c, r) /\ ref_ok s (eref r) /\
+    forall c0, bchoice c0 -> exists x, cvalue s f c0 x /\ cvalue s r c0 (negb x).
+Proof.
+  intros C s c f B Hf. destruct (denc_exists s f B Hf) as [phi D].
+  exists (enot f). split; [reflexivity|]. split; [exact Hf|].
+  intros c0 Hc. exists (phi c0). split; [apply (proj2 D c0 Hc)|].
+  apply (proj2 (denc_not s f phi D) c0 Hc).
+Qed.
+
 Section Top.
 Variable lt : edge -> edge -> bool.
 Variable C : Type.
 Variable cget : C -> N -> list edge -> option edge.
 Variable cadd : C -> N -> list edge -> edge -> C.
 Hypothesis Hlossy : lossyC cget cadd.
-
-Theorem capply_not_sound : forall s c f,
-  BcOK s -> CacheOKC cget s c -> ref_ok s (eref f) ->
-  exists r, capply_not C s c f = Some (s, c, r) /\ ref_ok s (eref r) /\
-    forall c0, bchoice c0 -> exists x, cvalue s f c0 x /\ cvalue s r c0 (negb x).
-Proof.
-  intros s c f B O Hf. destruct (denc_exists s f B Hf) as [phi D].
-  exists (enot f). split; [reflexivity|]. split; [exact Hf|].
-  intros c0 Hc. exists (phi c0). split; [apply (proj2 D c0 Hc)|].
-  apply (proj2 (denc_not s f phi D) c0 Hc).
-Qed.
 
 Theorem capply_op_sound : forall o fuel s c f g,
   BcOK s -> CacheOKC cget s c -> ref_ok s (eref f) -> ref_ok s (eref g) -> CFUEL s <= fuel ->
